@@ -37,15 +37,15 @@ static const char *iname[NI] = { "A", "B", "G" };
 #define NONE 2   /* third choice of the alpha-map argument: NULL */
 
 /* ---- operations ---- */
-#define NV 4     /* values per property setter */
+#define NV 5     /* values per property setter */
 enum { OP_PROBE = 0, OP_REF = 1, OP_UNREF = OP_REF + NI, OP_ALPHA = OP_UNREF + NI, OP_XFORM = OP_ALPHA + 3 * NI, OP_FILTER = OP_XFORM + NV * NI,
        OP_CLIP = OP_FILTER + NV * NI, OP_DFN = OP_CLIP + NV * NI, OP_GINS = OP_DFN + NV * NI, OP_GREM = OP_GINS + 2, OP_USE = OP_GREM + 2, C20_NOPS = OP_USE + NI };
 
 static const char *op_str(int op, char *buf, size_t cap)
 {
     static const char *an[3] = { "A", "B", "NULL" };
-    static const char *xv[NV] = { "scale2", "rot90+translate", "identity", "translate(.5,0)" }, *fv[NV] = { "conv1x1", "conv3x1/2phases", "nearest,NULL", "nearest,non-NULL pointer,0 parameters" },
-                      *cv[NV] = { "one-rect", "three-rects", "NULL", "empty region" }, *dv[NV] = { "cbA", "cbB", "NULL", "cbB(again)" };
+    static const char *xv[NV] = { "scale2", "rot90+translate", "identity", "translate(.5,0)", "scale2(again)" }, *fv[NV] = { "conv1x1", "conv3x1/2phases", "nearest,NULL", "nearest,non-NULL pointer,0 parameters", "conv3x1/2phases(again)" },
+                      *cv[NV] = { "one-rect", "three-rects", "NULL", "empty region", "twenty-rects(16-bit setter)" }, *dv[NV] = { "cbA", "cbB", "NULL", "cbB(again)", "cbA(again)" };
     if (op == OP_PROBE) snprintf(buf, cap, "release-all");
     else if (op < OP_UNREF) snprintf(buf, cap, "ref(%s)", iname[op - OP_REF]);
     else if (op < OP_ALPHA) snprintf(buf, cap, "unref(%s)", iname[op - OP_UNREF]);
@@ -175,6 +175,8 @@ static uint64_t pool_canon(pool_t *p)
         /* [white-box] the image's clip owns a heap rectangle array (multi-rectangle clip): a one-rectangle and a three-rectangle
          * clip do not have the same futures as far as heap ownership goes, so they must not be merged */
         if (x->alive && p->img[i]->common.have_clip_region && p->img[i]->common.clip_region.data && p->img[i]->common.clip_region.data->size) v |= (uint64_t)1 << (56 + i);
+        /* [white-box] nor is a clip of twenty rectangles the same state as one of three: setting "the same clip again" is a different future for each (bits 62, 63: images A and B) */
+        if (i < 2 && x->alive && p->img[i]->common.have_clip_region && p->img[i]->common.clip_region.data && p->img[i]->common.clip_region.data->numRects > 16) v |= (uint64_t)1 << (62 + i);
         /* [white-box] likewise a parameter block of length 0 (a pointer was given with n_params = 0) is not the same state as a filled block */
         if (x->alive && p->img[i]->common.filter_params && p->img[i]->common.n_filter_params == 0) v |= (uint64_t)1 << (59 + i);
     }
@@ -194,7 +196,8 @@ static const char *canon_str(uint64_t v, char *buf, size_t cap)
     }
     l += snprintf(buf + l, cap - l, "glyphs=%s%s", (v >> 54 & 1) ? "A" : "", (v >> 55 & 1) ? "B" : "");
     if (v >> 56 & 7) l += snprintf(buf + l, cap - l, " multi-rect-clip=%s%s%s", (v >> 56 & 1) ? "A" : "", (v >> 57 & 1) ? "B" : "", (v >> 58 & 1) ? "G" : "");
-    if (v >> 59 & 7) snprintf(buf + l, cap - l, " empty-filter-block=%s%s%s", (v >> 59 & 1) ? "A" : "", (v >> 60 & 1) ? "B" : "", (v >> 61 & 1) ? "G" : "");
+    if (v >> 59 & 7) l += snprintf(buf + l, cap - l, " empty-filter-block=%s%s%s", (v >> 59 & 1) ? "A" : "", (v >> 60 & 1) ? "B" : "", (v >> 61 & 1) ? "G" : "");
+    if (v >> 62 & 3) snprintf(buf + l, cap - l, " clip-of-more-than-16-rects=%s%s", (v >> 62 & 1) ? "A" : "", (v >> 63 & 1) ? "B" : "");
     return buf;
 }
 
@@ -292,17 +295,23 @@ static int apply(pool_t *p, int op, const char *desc)
         int grp = (op - OP_XFORM) / (NV * NI), i = (op - OP_XFORM) % (NV * NI) / NV, v = (op - OP_XFORM) % NV;
         if (m->im[i].crefs < 1) return 0;
         int *bit = grp == 0 ? &m->im[i].T : grp == 1 ? &m->im[i].F : grp == 2 ? &m->im[i].C : &m->im[i].D;
-        int newv = grp == 3 ? (v == 0 ? 0 : v == 2 ? 2 : 1) : (v != 2);
+        int newv = grp == 3 ? ((v == 0 || v == 4) ? 0 : v == 2 ? 2 : 1) : (v != 2);
         int cost_old = *bit != 0, cost_new = newv != 0;
         if (props_total(m) - cost_old + cost_new > p->max_props) return 0;   /* bound: at most max_props non-default properties in the pool */
         int ret = 1;
-        if (grp == 0) ret = pixman_image_set_transform(p->img[i], v == 0 ? &xf_scale2 : v == 1 ? &xf_rot : v == 2 ? &xf_id : &xf_half);
+        if (grp == 0) ret = pixman_image_set_transform(p->img[i], (v == 0 || v == 4) ? &xf_scale2 : v == 1 ? &xf_rot : v == 2 ? &xf_id : &xf_half);
         else if (grp == 1) ret = v == 2 ? pixman_image_set_filter(p->img[i], PIXMAN_FILTER_NEAREST, NULL, 0)
                                    : v == 3 ? pixman_image_set_filter(p->img[i], PIXMAN_FILTER_NEAREST, flt1, 0)      /* a pointer with a length of 0: legal, the image may keep an (empty) block */
-                                   : pixman_image_set_filter(p->img[i], PIXMAN_FILTER_SEPARABLE_CONVOLUTION, v == 0 ? flt1 : flt2, v == 0 ? 6 : 11);
+                                   : pixman_image_set_filter(p->img[i], PIXMAN_FILTER_SEPARABLE_CONVOLUTION, v == 0 ? flt1 : flt2, v == 0 ? 6 : 11);      /* v == 1 and v == 4: the same block */
         else if (grp == 2) {
             if (v == 2) ret = pixman_image_set_clip_region32(p->img[i], NULL);
-            else {
+            else if (v == 4) {
+                /* twenty rectangles through the 16-bit setter: more than any on-stack conversion buffer; setting it twice in a row hands the library a clip it already holds */
+                pixman_box16_t b[20]; for (int q = 0; q < 20; q++) { b[q].x1 = (int16_t)(3 * q); b[q].x2 = (int16_t)(3 * q + 2); b[q].y1 = (int16_t)(q % 3); b[q].y2 = (int16_t)(4 + q % 3); }
+                pixman_region16_t r16; pixman_region_init_rects(&r16, b, 20);
+                ret = pixman_image_set_clip_region(p->img[i], &r16);
+                pixman_region_fini(&r16);
+            } else {
                 pixman_region32_t r;
                 if (v == 0) pixman_region32_init_rect(&r, 0, 0, 3, 3);
                 else if (v == 3) pixman_region32_init(&r);
@@ -310,7 +319,7 @@ static int apply(pool_t *p, int op, const char *desc)
                 ret = pixman_image_set_clip_region32(p->img[i], &r);
                 pixman_region32_fini(&r);
             }
-        } else pixman_image_set_destroy_function(p->img[i], v == 0 ? destroy_cb_a : v == 2 ? NULL : destroy_cb_b, v == 2 ? NULL : (void *)&cb_data[v == 0 ? 0 : 1][i]);
+        } else pixman_image_set_destroy_function(p->img[i], (v == 0 || v == 4) ? destroy_cb_a : v == 2 ? NULL : destroy_cb_b, v == 2 ? NULL : (void *)&cb_data[(v == 0 || v == 4) ? 0 : 1][i]);
         *bit = newv;
         if (!ret) vf_violation("c20-setter-failed", "%s: %s returned FALSE (no allocation failure is injected here)", desc, what);
         judge_destruction(p, before, desc, what, 0, 0, 0);
@@ -398,7 +407,7 @@ static int op_enabled(uint64_t canon, int op)
         int grp = (op - OP_XFORM) / (NV * NI), i = (op - OP_XFORM) % (NV * NI) / NV, v = (op - OP_XFORM) % NV;
         if (crefs[i] < 1) return 0;
         int cur = grp == 0 ? T[i] : grp == 1 ? F[i] : grp == 2 ? C[i] : D[i];
-        int newv = grp == 3 ? (v == 3 ? 1 : v) : (v != 2);
+        int newv = grp == 3 ? (v == 3 ? 1 : v == 4 ? 0 : v) : (v != 2);
         return total - (cur != 0) + (newv != 0) <= max_props_bound;
     }
     if (op < OP_GREM) { int i = op - OP_GINS; return crefs[i] >= 1 && !gk[i]; }
